@@ -281,6 +281,77 @@ def check_parse_is_a_function_of_its_arguments(ctx) -> None:
            construct="parse family scanned")
 
 
+MUTATORS = {"update", "clear", "pop", "popitem", "setdefault", "__setitem__", "__delitem__"}
+
+
+def check_manifest_folders_are_current(ctx, m) -> None:
+    """R12 (seed C09-14): a value that a method of Manifest derives from the manifest mapping and remembers on the object (an attribute
+    assigned outside __init__ from an expression over self._manifest) is reset by every method that changes the mapping.  The remembered
+    top-level folders otherwise keep classifying references by the folders of an earlier key set."""
+    rule = "C09.R12-manifest-folders-are-current"
+    cls = next((c for c in m.tree.body if isinstance(c, ast.ClassDef) and c.name == "Manifest"), None)
+    ctx.require(cls is not None, "anchor missing: class Manifest in flowir.py")
+    methods = [f for f in cls.body if isinstance(f, ast.FunctionDef)]
+    tlf = [f for f in methods if f.name == "top_level_folders"]
+    ctx.require(bool(tlf), "anchor missing: Manifest.top_level_folders")
+    # the mapping attribute: what top_level_folders iterates
+    maps = {x.attr for f in tlf for x in ast.walk(f) if isinstance(x, ast.Attribute) and isinstance(x.value, ast.Name) and x.value.id == "self"
+            and x.attr.startswith("_") and isinstance(x.ctx, ast.Load)}
+    inits = {t.attr for f in methods if f.name == "__init__" for st in ast.walk(f) if isinstance(st, ast.Assign) for t in st.targets
+             if isinstance(t, ast.Attribute) and isinstance(t.value, ast.Name) and t.value.id == "self"
+             and not (isinstance(st.value, ast.Constant) and st.value.value is None)}
+    mapping_attrs = {a for a in maps if a in inits} or {"_manifest"}
+    memos = {}
+    for f in methods:
+        if f.name == "__init__":
+            continue
+        for st in ast.walk(f):
+            if isinstance(st, ast.Assign):
+                for t in st.targets:
+                    if isinstance(t, ast.Attribute) and isinstance(t.value, ast.Name) and t.value.id == "self" and t.attr not in mapping_attrs \
+                            and any(isinstance(x, ast.Attribute) and x.attr in mapping_attrs for x in ast.walk(st.value)):
+                        memos.setdefault(t.attr, (f, st))
+
+    def mutates(f) -> Optional[ast.AST]:
+        for x in ast.walk(f):
+            if isinstance(x, ast.Call) and isinstance(x.func, ast.Attribute) and x.func.attr in MUTATORS and isinstance(x.func.value, ast.Attribute) \
+                    and x.func.value.attr in mapping_attrs:
+                return x
+            if isinstance(x, (ast.Assign, ast.AugAssign, ast.Delete)):
+                tg = x.targets if isinstance(x, (ast.Assign, ast.Delete)) else [x.target]
+                for t in tg:
+                    if isinstance(t, ast.Subscript) and isinstance(t.value, ast.Attribute) and t.value.attr in mapping_attrs:
+                        return x
+                    if isinstance(t, ast.Attribute) and t.attr in mapping_attrs and isinstance(t.value, ast.Name) and t.value.id == "self":
+                        return x
+        return None
+    n_mut = 0
+    for f in methods:
+        if f.name == "__init__":
+            continue
+        mu = mutates(f)
+        if mu is None:
+            continue
+        n_mut += 1
+        for attr, (owner, st) in sorted(memos.items()):
+            if owner is f:
+                continue
+            resets = any(isinstance(a, ast.Assign) and any(isinstance(t, ast.Attribute) and t.attr == attr for t in a.targets) for a in ast.walk(f)) or \
+                any(isinstance(c, ast.Call) and isinstance(c.func, ast.Attribute) and isinstance(c.func.value, ast.Name) and c.func.value.id == "self"
+                    and any(isinstance(a, ast.Assign) and any(isinstance(t, ast.Attribute) and t.attr == attr for t in a.targets)
+                            for g in methods if g.name == c.func.attr for a in ast.walk(g)) for c in ast.walk(f))
+            ctx.ob(rule, mu, resets,
+                   "Manifest.%s changes the mapping and resets the remembered self.%s" % (f.name, attr) if resets else
+                   "Manifest.%s changes the manifest mapping (%s) but leaves self.%s - which Manifest.%s derived from the earlier keys - in place: "
+                   "after clear() + update(new keys) the top-level folders handed to the reference classifiers are those of the OLD key set, a "
+                   "reference into a new folder ('forcefield/ff.xml:copy') is classified as a component reference and a component named like an "
+                   "old folder as a direct path" % (f.name, short(mu, 40), attr, owner.name),
+                   construct="Manifest.%s resets self.%s" % (f.name, attr))
+    ctx.ob(rule, tlf[0], True, "%d methods of Manifest change the mapping, %d values derived from it are remembered on the object"
+           % (n_mut, len(memos)), trivial=True, construct="Manifest: mutators x remembered values")
+    ctx.require(n_mut >= 1, "anchor missing: no method of Manifest changes the manifest mapping (update / clear were expected)")
+
+
 def run(ctx) -> None:
     ctx.explanation = (
         "Printer/parser separator agreement for references, sibling cross-check of the two 'is this a component "
@@ -307,6 +378,8 @@ def run(ctx) -> None:
              "extension of the folder name (a cut at the last dot), never everything after the first dot")
     ctx.rule("C09.R11-parse-is-a-function-of-its-arguments", "the reference parsers and the constructors that call them keep no process-wide memo "
              "whose key drops or transforms an argument of the parse (what a reference parses to never depends on what was parsed before it)")
+    ctx.rule("C09.R12-manifest-folders-are-current", "the top-level folders a Manifest reports - the reserved names the classifiers receive - follow the "
+             "manifest's keys: a value derived from the mapping and remembered on the object is reset by every method that changes the mapping")
     ctx.rule("C09.R9-caller-stage-applies", "ParseProducerReference gives a producer that carries no stage prefix the stage its caller supplies: every "
              "path to the return takes the stage from the reference itself or consults the caller's index (absolute paths apart)")
 
@@ -667,3 +740,6 @@ def run(ctx) -> None:
 
     # ---------------- R11 ------------------------------------------------------------------------------
     check_parse_is_a_function_of_its_arguments(ctx)
+
+    # ---------------- R12 ------------------------------------------------------------------------------
+    check_manifest_folders_are_current(ctx, m)
